@@ -412,10 +412,754 @@ pub mod exh {
     }
 }
 
+// ---------------------------------------------------------------------------
+// LARGE-SCALE sub-checks: every size parameter across the ladder 255 .. 2^20 (see oracles/scale.rs).
+// Cases are generator parameters ({kind, n, sigma, sentinel layout, seed}); the check expands them.
+
+pub mod large {
+    use super::*;
+    use crate::c0306_ladder_labels;
+    use crate::oracles::scale::c0306::{self as sc, add_group, ladder, mix, Kind, LadderSub, Sent, Sm64, TextSpec};
+    use std::rc::Rc;
+    use std::sync::Arc;
+
+    pub const N_LABELS: [&str; 12] = c0306_ladder_labels!("n");
+    pub const SENT_LABELS: [&str; 12] = c0306_ladder_labels!("sentinel occurrences");
+    pub const LMS_LABELS: [&str; 12] = c0306_ladder_labels!("LMS positions");
+    pub const LCP_LABELS: [&str; 12] = c0306_ladder_labels!("max LCP");
+    pub const MAXSYM_LABELS: [&str; 12] = c0306_ladder_labels!("max symbol");
+    pub const S_LABELS: [&str; 12] = c0306_ladder_labels!("SA sampling rate s");
+    pub const K_LABELS: [&str; 12] = c0306_ladder_labels!("Occ rate k");
+    pub const WALK_LABELS: [&str; 12] = c0306_ladder_labels!("longest LF walk");
+
+    /// number of LMS positions of an integer text whose last symbol is the unique minimum (linear)
+    pub fn lms_count(t: &[usize]) -> usize {
+        let n = t.len();
+        if n < 2 {
+            return 0;
+        }
+        let mut count = 0usize;
+        // s_next = type of position p+1 (true = S)
+        let mut s_next = true;
+        for p in (0..n - 1).rev() {
+            let s_here = if t[p] == t[p + 1] { s_next } else { t[p] < t[p + 1] };
+            if !s_here && s_next {
+                count += 1; // p+1 is S and p is L
+            }
+            s_next = s_here;
+        }
+        count
+    }
+
+    fn kind_label(k: Kind) -> &'static str {
+        match k {
+            Kind::Random => "kind random",
+            Kind::Homo => "kind homopolymer",
+            Kind::Period(_) => "kind periodic",
+            Kind::Asc => "kind ascending runs",
+            Kind::Desc => "kind descending runs",
+            Kind::Fib => "kind Fibonacci",
+            Kind::Thue => "kind Thue-Morse",
+            Kind::Repeat2 => "kind XcX",
+        }
+    }
+
+    // ------------------------------------------------------------------ suffix_array / lcp / SUS
+
+    pub mod bytes {
+        use super::*;
+
+        #[derive(Serialize, Deserialize, Debug, Clone)]
+        pub struct Case {
+            pub text: TextSpec,
+            /// how the suffix array is handed to lcp(): 0 = &Vec, 1 = Box<Vec>, 2 = Rc<Vec>, 3 = Arc<Vec>
+            pub deref: u8,
+        }
+
+        pub fn check(c: &Case) -> R {
+            let Some(text) = c.text.build() else { fail!("harness: {:?} does not describe a text", c.text) };
+            ensure!(sa::in_domain(&text), "harness: text of {:?} is outside the domain", c.text);
+            let n = text.len();
+            let pos = suffix_array(&text);
+            let (t, m) = match sc::int_view(&text, &pos) {
+                Ok(x) => x,
+                Err(e) => fail!("suffix_array: text {:?} = {}: {}; sa={}", c.text, show(&text), e, show_vec(&pos)),
+            };
+            let adj = match sc::verify_sorted(&t, &pos) {
+                Ok(a) => a,
+                Err(e) => fail!("suffix_array: text {:?} = {}: {}; sa={}", c.text, show(&text), e, show_vec(&pos)),
+            };
+            let single = m == 1;
+            let max_lcp = adj.iter().copied().max().unwrap_or(0) as usize;
+
+            if single && n >= 2 {
+                let l = match c.deref {
+                    0 => lcp(&text, &pos),
+                    1 => lcp(&text, Box::new(pos.clone())),
+                    2 => lcp(&text, Rc::new(pos.clone())),
+                    _ => lcp(&text, Arc::new(pos.clone())),
+                };
+                let d = l.decompress();
+                ensure!(d.len() == n + 1 && l.len() == n + 1 && !l.is_empty(), "lcp: text {:?}: LCP array has {} entries (len() says {}), expected {}", c.text, d.len(), l.len(), n + 1);
+                ensure!(d[0] == -1 && d[n] == -1, "lcp: text {:?}: border entries are lcp[0]={} lcp[{}]={}, expected -1 and -1", c.text, d[0], n, d[n]);
+                for r in 1..n {
+                    ensure!(
+                        d[r] == adj[r] as isize,
+                        "lcp: text {:?} = {}: lcp[{}]={} but suffixes {} and {} share exactly {} leading symbols",
+                        c.text, show(&text), r, d[r], pos[r - 1], pos[r], adj[r]
+                    );
+                }
+                for r in 0..=n {
+                    let g = l.get(r);
+                    ensure!(g == Some(d[r]), "lcp: text {:?}: get({})={:?} differs from decompress()[{}]={}", c.text, r, g, r, d[r]);
+                }
+                ensure!(l.get(n + 1).is_none(), "lcp: text {:?}: get({}) beyond the end returned {:?}", c.text, n + 1, l.get(n + 1));
+                let via_iter: Vec<isize> = l.iter().collect();
+                ensure!(via_iter == d, "lcp: text {:?}: iter() and decompress() differ", c.text);
+
+                let sus = shortest_unique_substrings(&pos, &l);
+                ensure!(sus.len() == n, "shortest_unique_substrings: text {:?}: {} entries, expected {}", c.text, sus.len(), n);
+                for r in 0..n {
+                    let p = pos[r];
+                    let nb = adj[r].max(if r + 1 < n { adj[r + 1] } else { 0 }) as usize;
+                    // the suffix array is verified sorted, so the longest prefix shared with any other suffix is
+                    // shared with a neighbour; the last symbol is unique, so nb + 1 <= n - p
+                    ensure!(
+                        sus[p] == Some(nb + 1),
+                        "shortest_unique_substrings: text {:?} = {}: position {} got {:?}, expected {:?} (1 + longest prefix shared with another suffix)",
+                        c.text, show(&text), p, sus[p], Some(nb + 1)
+                    );
+                }
+            }
+
+            // classes (measured on the text, not taken from the parameters)
+            let mut distinct = [false; 256];
+            for &ch in &text {
+                distinct[ch as usize] = true;
+            }
+            let nsym = distinct.iter().filter(|&&x| x).count(); // alphabet.len() of the library, sentinel included
+            let ranks = nsym + m; // the quantity suffix_array() switches the text type on
+            let lms = lms_count(&sa::transformed(&text));
+            let mut pass = Pass::new(n >= 4 && nsym < n);
+            add_group(&mut pass, &N_LABELS, n);
+            add_group(&mut pass, &SENT_LABELS, m);
+            add_group(&mut pass, &LMS_LABELS, lms);
+            if single && n >= 2 {
+                add_group(&mut pass, &LCP_LABELS, max_lcp);
+                pass.add_if(max_lcp == 126, "max LCP = 126 (last small int)");
+                pass.add_if(max_lcp == 127, "max LCP = 127 (first big int)");
+                pass.add_if(max_lcp == 128, "max LCP = 128");
+                pass.add("single-sentinel (LCP and SUS checked)");
+            }
+            pass.add_if(ranks == 255, "alphabet+sentinels = 255 (last u8 text)");
+            pass.add_if(ranks == 256, "alphabet+sentinels = 256 (first u16 text)");
+            pass.add_if((254..=258).contains(&ranks), "alphabet+sentinels in 254..258");
+            pass.add_if(ranks == 65535, "alphabet+sentinels = 65535 (last u16 text)");
+            pass.add_if(ranks == 65536, "alphabet+sentinels = 65536 (first u32 text)");
+            pass.add_if((65534..=65538).contains(&ranks), "alphabet+sentinels in 65534..65538");
+            pass.add_if(lms == 255, "LMS positions = 255 (last u8 reduced text)");
+            pass.add_if(lms == 256, "LMS positions = 256 (first u16 reduced text)");
+            pass.add_if(lms == 65535, "LMS positions = 65535 (last u16 reduced text)");
+            pass.add_if(lms == 65536, "LMS positions = 65536 (first u32 reduced text)");
+            pass.add_if(m > 1, "multi-sentinel");
+            pass.add_if(m == n, "text of sentinels only");
+            pass.add(kind_label(c.text.kind));
+            pass.add(["lcp(&Vec)", "lcp(Box<Vec>)", "lcp(Rc<Vec>)", "lcp(Arc<Vec>)"][(c.deref as usize).min(3)]);
+            Ok(pass)
+        }
+
+        pub fn weight(c: &Case) -> u64 {
+            c.text.n as u64 + 2000
+        }
+
+        fn spec(kind: Kind, n: usize, sigma: u16, sent: Sent, sentinel: u8, dna: bool, seed: u64) -> TextSpec {
+            TextSpec { kind, n, sigma, sent, sentinel, dna, seed }
+        }
+
+        /// text length n such that the text has exactly `target` LMS positions (best effort; the class is measured)
+        fn fit_lms(kind: Kind, sigma: u16, sentinel: u8, dna: bool, seed: u64, target: usize) -> usize {
+            // LMS density of a long sample, then try lengths around the estimate
+            let probe = 4096usize.max(target.min(20_000));
+            let t = spec(kind, probe, sigma, Sent::Single, sentinel, dna, seed).build().unwrap();
+            let dens = lms_count(&sa::transformed(&t)).max(1) as f64 / probe as f64;
+            let mut n = ((target as f64 / dens) as usize).max(3);
+            for _ in 0..60 {
+                let t = spec(kind, n, sigma, Sent::Single, sentinel, dna, seed).build().unwrap();
+                let got = lms_count(&sa::transformed(&t));
+                if got == target {
+                    return n;
+                }
+                let diff = target as i64 - got as i64;
+                let stepn = ((diff.abs() as f64 / dens) as i64).max(1) * diff.signum();
+                n = ((n as i64 + stepn).max(3)) as usize;
+            }
+            n
+        }
+
+        pub fn cases(t: Tier, seed: u64) -> Vec<Case> {
+            let mut v: Vec<TextSpec> = Vec::new();
+            let reps = if t == Tier::Quick { 1 } else { 6 };
+            for rep in 0..reps {
+                let sd = |x: u64| mix(seed, x * 1000 + rep as u64);
+                // --- (1) text length ladder, structured and random kinds
+                let big = 131_073usize;
+                for (vi, &n) in ladder(1 << 21).iter().enumerate() {
+                    let s = sd(vi as u64);
+                    let huge = n > big;
+                    // single-sentinel kinds
+                    v.push(spec(Kind::Random, n, 4, Sent::Single, b'$', true, s));
+                    v.push(spec(Kind::Homo, n, 1, Sent::Single, b'$', true, s));
+                    v.push(spec(Kind::Period(2), n, 4, Sent::Single, b'$', true, s));
+                    v.push(spec(Kind::Random, n, 4, Sent::Random(n / 64), b'$', true, s));
+                    if huge && t == Tier::Quick {
+                        continue;
+                    }
+                    v.push(spec(Kind::Random, n, 2, Sent::Single, b'!', false, s));
+                    v.push(spec(Kind::Random, n, 253, Sent::Single, 0, false, s));
+                    v.push(spec(Kind::Random, n, 254, Sent::Single, 0, false, s));
+                    v.push(spec(Kind::Period(3), n, 3, Sent::Single, b'#', false, s));
+                    v.push(spec(Kind::Period(7), n, 4, Sent::Single, b'$', true, s));
+                    v.push(spec(Kind::Asc, n, 4, Sent::Single, b'$', true, s));
+                    v.push(spec(Kind::Desc, n, 4, Sent::Single, b'$', true, s));
+                    v.push(spec(Kind::Fib, n, 2, Sent::Single, b'$', true, s));
+                    v.push(spec(Kind::Thue, n, 2, Sent::Single, b'$', true, s));
+                    v.push(spec(Kind::Repeat2, n, 4, Sent::Single, b'$', true, s));
+                    // multi-sentinel kinds
+                    v.push(spec(Kind::Random, n, 4, Sent::Even(n / 100 + 1), b'$', true, s));
+                    v.push(spec(Kind::Homo, n, 1, Sent::Random(n / 50 + 1), 0, false, s));
+                    v.push(spec(Kind::Random, n, 4, Sent::Tail(5), b'$', true, s));
+                    v.push(spec(Kind::Random, n, 3, Sent::Head(5), b'#', false, s));
+                    v.push(spec(Kind::Period(100), n, 4, Sent::Every(101), b'$', true, s));
+                }
+                // --- (2) number of sentinel occurrences m (interior = m-1)
+                for (vi, &m) in ladder(131_073).iter().enumerate() {
+                    let s = sd(100 + vi as u64);
+                    v.push(spec(Kind::Random, 2 * m, 4, Sent::Random(m - 1), b'$', true, s));
+                    v.push(spec(Kind::Random, m + 40, 4, Sent::Tail(m - 1), b'$', true, s));
+                    v.push(spec(Kind::Homo, 2 * m, 1, Sent::Every(2), 0, false, s));
+                    v.push(spec(Kind::Homo, m, 1, Sent::Head(m - 1), b'$', true, s)); // sentinels only
+                }
+                // --- (3) alphabet size + sentinel occurrences around the u8/u16 and u16/u32 switch
+                for &sum in &[254usize, 255, 256, 257, 258, 65534, 65535, 65536, 65537, 65538] {
+                    for &sigma in &[4u16, 200] {
+                        let m = sum - (sigma as usize + 1);
+                        if m >= 1 && (sigma == 4 || sum < 1000) {
+                            let n = 2 * m + 40 * sigma as usize;
+                            v.push(spec(Kind::Random, n, sigma, if m == 1 { Sent::Single } else { Sent::Random(m - 1) }, if sigma == 4 { b'$' } else { 0 }, sigma == 4, sd(200 + sum as u64)));
+                        }
+                    }
+                }
+                // --- (4) number of LMS positions (type of the reduced text)
+                let mut lms_targets = ladder(131_073);
+                lms_targets.extend([254usize, 258]);
+                for (vi, &target) in lms_targets.iter().enumerate() {
+                    let s = sd(300 + vi as u64);
+                    for (kind, sigma, sentinel, dna) in [(Kind::Period(2), 4u16, b'$', true), (Kind::Random, 4, b'$', true), (Kind::Random, 254, 0u8, false)] {
+                        if target > 70_000 && kind == Kind::Random && sigma == 254 && t == Tier::Quick {
+                            continue;
+                        }
+                        let n = fit_lms(kind, sigma, sentinel, dna, s, target);
+                        v.push(spec(kind, n, sigma, Sent::Single, sentinel, dna, s));
+                    }
+                }
+                // --- (5) longest repeat (LCP values around the small-int limit and the ladder)
+                let mut lcps = ladder(1 << 19);
+                lcps.extend([125usize, 126, 127, 128, 129]);
+                for (vi, &h) in lcps.iter().enumerate() {
+                    v.push(spec(Kind::Repeat2, 2 * h + 2, 4, Sent::Single, b'$', true, sd(400 + vi as u64)));
+                    if h <= 200 {
+                        v.push(spec(Kind::Homo, h + 2, 1, Sent::Single, b'$', true, sd(400 + vi as u64)));
+                    }
+                }
+            }
+            v.into_iter().enumerate().map(|(i, text)| Case { text, deref: (i % 4) as u8 }).collect()
+        }
+
+        pub fn sub() -> LadderSub<Case> {
+            LadderSub {
+                name: "C03/large-sa",
+                cases,
+                weight,
+                check,
+                shards_quick: 16,
+                shards_thorough: 16,
+                must_reach: &[
+                    N_LABELS[0], N_LABELS[1], N_LABELS[2], N_LABELS[3], N_LABELS[4], N_LABELS[5], N_LABELS[6], N_LABELS[7], N_LABELS[8], N_LABELS[9], N_LABELS[10], N_LABELS[11],
+                    SENT_LABELS[0], SENT_LABELS[1], SENT_LABELS[2], SENT_LABELS[3], SENT_LABELS[4], SENT_LABELS[5], SENT_LABELS[6], SENT_LABELS[7], SENT_LABELS[8], SENT_LABELS[9],
+                    LMS_LABELS[0], LMS_LABELS[1], LMS_LABELS[2], LMS_LABELS[3], LMS_LABELS[4], LMS_LABELS[5], LMS_LABELS[6], LMS_LABELS[7], LMS_LABELS[8], LMS_LABELS[9],
+                    LCP_LABELS[0], LCP_LABELS[1], LCP_LABELS[2], LCP_LABELS[3], LCP_LABELS[4], LCP_LABELS[5], LCP_LABELS[6], LCP_LABELS[7], LCP_LABELS[8], LCP_LABELS[9], LCP_LABELS[10], LCP_LABELS[11],
+                    "max LCP = 126 (last small int)", "max LCP = 127 (first big int)", "max LCP = 128",
+                    "alphabet+sentinels = 255 (last u8 text)", "alphabet+sentinels = 256 (first u16 text)",
+                    "alphabet+sentinels = 65535 (last u16 text)", "alphabet+sentinels = 65536 (first u32 text)",
+                    "LMS positions = 255 (last u8 reduced text)", "LMS positions = 256 (first u16 reduced text)",
+                    "LMS positions = 65535 (last u16 reduced text)", "LMS positions = 65536 (first u32 reduced text)",
+                    "text of sentinels only", "multi-sentinel",
+                    "lcp(&Vec)", "lcp(Box<Vec>)", "lcp(Rc<Vec>)", "lcp(Arc<Vec>)",
+                ],
+            }
+        }
+    }
+
+    // ------------------------------------------------------------------ suffix_array_int
+
+    pub mod ints {
+        use super::*;
+
+        #[derive(Serialize, Deserialize, Debug, Clone)]
+        pub struct Case {
+            /// element type: 0=u8 1=u16 2=u32 3=u64 4=usize
+            pub width: u8,
+            /// Random / Homo / Period / Asc / Desc
+            pub kind: Kind,
+            /// text length including the trailing 0
+            pub n: usize,
+            /// largest symbol; every value of 0..=max occurs, 0 only at the end
+            pub max: u32,
+            pub seed: u64,
+        }
+
+        pub fn build(c: &Case) -> Option<Vec<u32>> {
+            let max = c.max as usize;
+            if c.n < 1 || max + 1 > c.n || (max == 0 && c.n != 1) {
+                return None;
+            }
+            let len = c.n - 1;
+            let mut rng = Sm64::new(c.seed);
+            let fill = len - max;
+            let mut body: Vec<u32> = (1..=c.max).collect();
+            match c.kind {
+                Kind::Random => {
+                    body.extend((0..fill).map(|_| 1 + rng.below(max) as u32));
+                    for i in (1..body.len()).rev() {
+                        let j = rng.below(i + 1);
+                        body.swap(i, j);
+                    }
+                }
+                Kind::Asc => {
+                    body.extend((0..fill).map(|_| 1 + rng.below(max) as u32));
+                    body.sort_unstable();
+                }
+                Kind::Desc => {
+                    body.extend((0..fill).map(|_| 1 + rng.below(max) as u32));
+                    body.sort_unstable_by(|a, b| b.cmp(a));
+                }
+                Kind::Period(p) => {
+                    let p = (p as usize).max(1);
+                    let unit: Vec<u32> = (0..p).map(|_| 1 + rng.below(max) as u32).collect();
+                    body.extend((0..fill).map(|i| unit[i % p]));
+                }
+                _ => {
+                    // homopolymer of the largest symbol after the ascending permutation
+                    body.extend(std::iter::repeat(c.max).take(fill));
+                }
+            }
+            body.push(0);
+            Some(body)
+        }
+
+        fn run(width: u8, t: &[u32]) -> Vec<usize> {
+            match width {
+                0 => suffix_array_int(&t.iter().map(|&v| v as u8).collect::<Vec<u8>>()),
+                1 => suffix_array_int(&t.iter().map(|&v| v as u16).collect::<Vec<u16>>()),
+                2 => suffix_array_int(t),
+                3 => suffix_array_int(&t.iter().map(|&v| v as u64).collect::<Vec<u64>>()),
+                _ => suffix_array_int(&t.iter().map(|&v| v as usize).collect::<Vec<usize>>()),
+            }
+        }
+
+        pub fn check(c: &Case) -> R {
+            let Some(t) = build(c) else { fail!("harness: {:?} does not describe an integer text", c) };
+            let n = t.len();
+            let limit: u64 = match c.width {
+                0 => 255,
+                1 => 65_535,
+                _ => u32::MAX as u64,
+            };
+            ensure!(c.width <= 4 && c.max as u64 <= limit, "harness: {:?}: max does not fit the element type", c);
+            let w = super::super::ints::width_name(c.width);
+            let pos = run(c.width, &t);
+            ensure!(pos.len() == n, "suffix_array_int::<{}>: text {:?} = {}: result has length {}, expected {}", w, c, show_vec(&t), pos.len(), n);
+            let mut seen = vec![false; n];
+            for (r, &p) in pos.iter().enumerate() {
+                ensure!(p < n && !seen[p], "suffix_array_int::<{}>: text {:?} = {}: sa[{}]={} is out of range or repeated, not a permutation; sa={}", w, c, show_vec(&t), r, p, show_vec(&pos));
+                seen[p] = true;
+            }
+            if let Err(e) = sc::verify_sorted(&t, &pos) {
+                fail!("suffix_array_int::<{}>: text {:?} = {}: {}; sa={}", w, c, show_vec(&t), e, show_vec(&pos));
+            }
+            let lms = lms_count(&t.iter().map(|&x| x as usize).collect::<Vec<_>>());
+            let mut pass = Pass::new(n >= 4);
+            add_group(&mut pass, &N_LABELS, n);
+            add_group(&mut pass, &MAXSYM_LABELS, c.max as usize);
+            add_group(&mut pass, &LMS_LABELS, lms);
+            pass.add(["int u8", "int u16", "int u32", "int u64", "int usize"][c.width as usize]);
+            pass.add_if(c.max == 254, "max symbol = 254");
+            pass.add_if(c.max == 255 && c.width == 0, "max symbol = 255 as u8");
+            pass.add_if(c.max == 65_535 && c.width == 1, "max symbol = 65535 as u16");
+            pass.add_if(c.max == 65_536, "max symbol = 65536");
+            pass.add_if(c.max as usize + 1 == n && n > 2, "permutation text (all symbols distinct)");
+            pass.add(kind_label(c.kind));
+            Ok(pass)
+        }
+
+        pub fn weight(c: &Case) -> u64 {
+            c.n as u64 + 2000
+        }
+
+        pub fn cases(t: Tier, seed: u64) -> Vec<Case> {
+            let mut v = Vec::new();
+            let reps = if t == Tier::Quick { 1 } else { 6 };
+            let need = |max: u32| if max <= 255 { 0u8 } else if max <= 65_535 { 1 } else { 2 };
+            let mut i = 0u64;
+            let mut push = |v: &mut Vec<Case>, kind: Kind, n: usize, max: u32, s: u64| {
+                i += 1;
+                let width = need(max).max((i % 5) as u8);
+                v.push(Case { width, kind, n, max, seed: s });
+            };
+            for rep in 0..reps {
+                let sd = |x: u64| mix(seed, 0xc03_1 + x * 1000 + rep as u64);
+                // text length ladder with small alphabets and with all-distinct symbols
+                for (vi, &n) in ladder(1 << 21).iter().enumerate() {
+                    let s = sd(vi as u64);
+                    let huge = n > 131_073;
+                    push(&mut v, Kind::Random, n, 4, s);
+                    push(&mut v, Kind::Homo, n, 1, s);
+                    if huge && t == Tier::Quick {
+                        continue;
+                    }
+                    push(&mut v, Kind::Period(2), n, 2, s);
+                    push(&mut v, Kind::Period(5), n, 3, s);
+                    push(&mut v, Kind::Asc, n, 4, s);
+                    push(&mut v, Kind::Desc, n, 4, s);
+                    push(&mut v, Kind::Random, n, 200, s);
+                    // permutations: random, sorted ascending, sorted descending
+                    push(&mut v, Kind::Random, n, (n - 1) as u32, s);
+                    push(&mut v, Kind::Asc, n, (n - 1) as u32, s);
+                    push(&mut v, Kind::Desc, n, (n - 1) as u32, s);
+                }
+                // largest symbol (= number of buckets - 1) ladder, texts twice as long as the alphabet
+                let mut maxes = ladder(131_073);
+                maxes.extend([253usize, 254, 65_534, 65_538]);
+                for (vi, &mx) in maxes.iter().enumerate() {
+                    let s = sd(500 + vi as u64);
+                    push(&mut v, Kind::Random, 2 * mx + 1, mx as u32, s);
+                    push(&mut v, Kind::Asc, 2 * mx + 1, mx as u32, s);
+                    push(&mut v, Kind::Homo, mx + 300, mx as u32, s);
+                }
+                // narrowest type that holds the text, at its limit
+                for (k, &(w, mx)) in [(0u8, 255u32), (0, 254), (1, 65_535), (1, 65_534), (1, 256), (2, 65_536), (4, 65_536), (3, 65_537)].iter().enumerate() {
+                    for kind in [Kind::Random, Kind::Desc] {
+                        v.push(Case { width: w, kind, n: mx as usize + 1 + (k % 2) * 1000, max: mx, seed: sd(900 + k as u64) });
+                    }
+                }
+            }
+            v
+        }
+
+        pub fn sub() -> LadderSub<Case> {
+            LadderSub {
+                name: "C03/large-int",
+                cases,
+                weight,
+                check,
+                shards_quick: 8,
+                shards_thorough: 16,
+                must_reach: &[
+                    N_LABELS[0], N_LABELS[1], N_LABELS[2], N_LABELS[3], N_LABELS[4], N_LABELS[5], N_LABELS[6], N_LABELS[7], N_LABELS[8], N_LABELS[9], N_LABELS[10], N_LABELS[11],
+                    MAXSYM_LABELS[0], MAXSYM_LABELS[1], MAXSYM_LABELS[2], MAXSYM_LABELS[3], MAXSYM_LABELS[4], MAXSYM_LABELS[5], MAXSYM_LABELS[6], MAXSYM_LABELS[7], MAXSYM_LABELS[8], MAXSYM_LABELS[9],
+                    LMS_LABELS[7],
+                    "int u8", "int u16", "int u32", "int u64", "int usize",
+                    "max symbol = 254", "max symbol = 255 as u8", "max symbol = 65535 as u16", "max symbol = 65536",
+                    "permutation text (all symbols distinct)",
+                ],
+            }
+        }
+    }
+
+    // ------------------------------------------------------------------ sampled suffix array
+
+    pub mod sampled {
+        use super::*;
+
+        #[derive(Serialize, Deserialize, Debug, Clone)]
+        pub struct Case {
+            pub text: TextSpec,
+            /// suffix array sampling rate (>= 1, may exceed n)
+            pub s: usize,
+            /// Occ sampling rate (>= 1, may exceed n)
+            pub k: u32,
+            /// symbols added to the alphabet handed to less / Occ
+            pub extra: B,
+            /// keep a `$` sentinel in that alphabet
+            pub with_sentinel: bool,
+            /// components handed to sample(): 0 = borrowed, 1 = owned, 2 = Arc
+            pub own: u8,
+            /// at most this many get() queries (all rows when >= n)
+            pub budget: usize,
+            pub qseed: u64,
+        }
+
+        /// rows to query: first/last, around multiples of s, around ladder values, rows whose LF walk is
+        /// longest (text positions just below the next sampled/extra row), random rows
+        fn queries(c: &Case, n: usize, full: &[usize], walk: &[u32]) -> Vec<usize> {
+            if c.budget >= n {
+                return (0..n).collect();
+            }
+            let mut q: Vec<usize> = Vec::new();
+            let mut add = |r: usize| {
+                if r < n {
+                    q.push(r);
+                }
+            };
+            // rows with the longest walks first
+            let mut best: Vec<usize> = (0..n).collect();
+            let top = (c.budget / 4).max(4).min(n);
+            best.select_nth_unstable_by(top - 1, |&a, &b| walk[b].cmp(&walk[a]));
+            for &r in &best[..top] {
+                add(r);
+            }
+            for r in [0usize, 1, 2, n - 1, n.saturating_sub(2)] {
+                add(r);
+            }
+            for j in 1..=4usize {
+                for d in [-1i64, 0, 1] {
+                    let r = (j * c.s) as i64 + d;
+                    if r >= 0 {
+                        add(r as usize);
+                    }
+                }
+            }
+            for v in ladder(n) {
+                add(v - 1);
+                add(v);
+                add(v + 1);
+            }
+            let _ = full;
+            let mut rng = Sm64::new(c.qseed);
+            for _ in 0..c.budget * 2 {
+                add(rng.below(n));
+            }
+            // keep the order (long walks first), drop duplicates, cut to the budget
+            let mut seen = std::collections::HashSet::new();
+            q.retain(|r| seen.insert(*r));
+            q.truncate(c.budget);
+            q
+        }
+
+        pub fn check(c: &Case) -> R {
+            let Some(text) = c.text.build() else { fail!("harness: {:?} does not describe a text", c.text) };
+            ensure!(sa::in_domain(&text), "harness: text of {:?} is outside the domain", c.text);
+            ensure!(c.s >= 1 && c.k >= 1 && c.budget >= 1, "harness: rates/budget of {:?}", c);
+            let n = text.len();
+            let sentinel = text[n - 1];
+            let syms = sa::alphabet_for(&text, &c.extra, c.with_sentinel);
+            let alphabet = Alphabet::new(&syms);
+            let full = suffix_array(&text);
+            // a wrong full array is C03/large-sa's finding; here it would make every answer meaningless
+            let (t, m) = match sc::int_view(&text, &full) {
+                Ok(x) => x,
+                Err(e) => fail!("suffix_array: text {:?}: {}", c.text, e),
+            };
+            if let Err(e) = sc::verify_sorted(&t, &full) {
+                fail!("suffix_array: text {:?}: {}", c.text, e);
+            }
+            let b = bwt(&text, &full);
+            let ls = less(&b, &alphabet);
+            let occ = Occ::new(&b, c.k, &alphabet);
+
+            // length of the LF walk of every row, from the text (independent of the library):
+            // the walk from row r (text position p) steps to p-1, p-2, .. and stops at the first row that is
+            // sampled (row % s == 0) or whose BWT symbol is a sentinel (extra row)
+            let mut walk = vec![0u32; n];
+            {
+                let mut isa = vec![0usize; n];
+                for (r, &p) in full.iter().enumerate() {
+                    isa[p] = r;
+                }
+                // process text positions in increasing order: stop(p) known => walk(p+1) = walk(p)+1 unless p+1 stops itself
+                for p in 0..n {
+                    let r = isa[p];
+                    let stops = r % c.s == 0 || b[r] == sentinel;
+                    walk[r] = if stops { 0 } else { walk[isa[p - 1]] + 1 };
+                }
+            }
+            let longest = walk.iter().copied().max().unwrap_or(0) as usize;
+            let q = queries(c, n, &full, &walk);
+
+            macro_rules! probe {
+                ($sampled:expr) => {{
+                    let sampled = $sampled;
+                    ensure!(SuffixArray::len(&sampled) == n && !SuffixArray::is_empty(&sampled), "sampled: {:?}: len()={} is_empty()={} expected {}", c, SuffixArray::len(&sampled), SuffixArray::is_empty(&sampled), n);
+                    ensure!(sampled.sampling_rate() == c.s, "sampled: {:?}: sampling_rate()={} expected {}", c, sampled.sampling_rate(), c.s);
+                    ensure!(sampled.bwt() == &b && sampled.less() == &ls && sampled.occ() == &occ, "sampled: {:?}: bwt()/less()/occ() do not return the components handed to sample()", c);
+                    for &i in &q {
+                        let got = sampled.get(i);
+                        ensure!(
+                            got == Some(full[i]),
+                            "sampled: text {:?} = {} alphabet {} s={} k={}: get({})={:?} but the full array has {} (LF walk of {} steps)",
+                            c.text, show(&text), show(&syms), c.s, c.k, i, got, full[i], walk[i]
+                        );
+                    }
+                    ensure!(sampled.get(n).is_none() && sampled.get(n + c.s).is_none(), "sampled: {:?}: get beyond the end is not None", c);
+                    // shortest unique substrings through the sampled array (generic SuffixArray argument)
+                    if m == 1 && n >= 2 && (n as u64) * (longest as u64 + 1) <= 600_000 {
+                        let l = lcp(&text, &full);
+                        let a = shortest_unique_substrings(&sampled, &l);
+                        let bfull = shortest_unique_substrings(&full, &l);
+                        ensure!(a == bfull, "shortest_unique_substrings: {:?}: result through the sampled array differs from the result through the full array", c);
+                        true
+                    } else {
+                        false
+                    }
+                }};
+            }
+            let sus_checked = match c.own {
+                0 => probe!(full.sample(&text, &b, &ls, &occ, c.s)),
+                1 => probe!(full.sample(&text, b.clone(), ls.clone(), occ.clone(), c.s)),
+                _ => probe!(full.sample(&text, Arc::new(b.clone()), Arc::new(ls.clone()), Arc::new(occ.clone()), c.s)),
+            };
+
+            let k = c.k as usize;
+            let mut pass = Pass::new(n >= 4 && c.s > 1);
+            add_group(&mut pass, &N_LABELS, n);
+            add_group(&mut pass, &S_LABELS, c.s);
+            add_group(&mut pass, &K_LABELS, k);
+            add_group(&mut pass, &SENT_LABELS, m);
+            add_group(&mut pass, &WALK_LABELS, longest);
+            pass.add_if(longest > 255, "LF walk > 255 steps");
+            pass.add_if(longest > 65_535, "LF walk > 65535 steps");
+            pass.add_if(c.s > n, "s>n");
+            pass.add_if(k > n, "k>n");
+            pass.add_if(k > 65_536 && k < n, "k>65536 with a second checkpoint");
+            pass.add_if(c.s > 65_536 && c.s < n, "s>65536 with a second sample");
+            pass.add_if(m > 1, "multi-sentinel (extra rows)");
+            pass.add_if(q.len() == n, "every row queried");
+            pass.add_if(q.len() < n, "rows sampled");
+            pass.add_if(sus_checked, "SUS through the sampled array");
+            pass.add_if(!syms.contains(&sentinel), "alphabet without the $ sentinel");
+            pass.add(["borrowed", "owned", "Arc"][(c.own as usize).min(2)]);
+            pass.add(kind_label(c.text.kind));
+            Ok(pass)
+        }
+
+        /// rough cost of one get(): walk length times cost of one Occ::get
+        fn per_query(n: usize, s: usize, k: u32, multi: bool) -> u64 {
+            let walk = if multi { s.min(n) } else { s.min(n) } as u64;
+            walk.max(1) * (k as u64 / 24 + 25)
+        }
+
+        pub fn weight(c: &Case) -> u64 {
+            let q = c.budget.min(c.text.n) as u64;
+            c.text.n as u64 * 3 + q * per_query(c.text.n, c.s, c.k, c.text.sent != Sent::Single) / 40 + 2000
+        }
+
+        fn mk(text: TextSpec, s: usize, k: u32, i: usize, seed: u64, effort: u64) -> Case {
+            let n = text.n;
+            let pq = per_query(n, s, k, text.sent != Sent::Single);
+            let budget = ((effort / pq) as usize).clamp(6, 200_000);
+            let extra: Vec<u8> = match i % 3 {
+                0 => vec![],
+                1 => b"N".to_vec(),
+                _ => vec![0xff],
+            };
+            Case { text, s, k, extra: B(extra), with_sentinel: i % 2 == 0, own: (i % 3) as u8, budget, qseed: seed }
+        }
+
+        pub fn cases(t: Tier, seed: u64) -> Vec<Case> {
+            let mut v = Vec::new();
+            let reps = if t == Tier::Quick { 1 } else { 5 };
+            let effort: u64 = if t == Tier::Quick { 12_000_000 } else { 60_000_000 };
+            let sp = |kind: Kind, n: usize, sigma: u16, sent: Sent, s: u64| TextSpec { kind, n, sigma, sent, sentinel: b'$', dna: true, seed: s };
+            for rep in 0..reps {
+                let sd = |x: u64| mix(seed, 0xc03_2 + x * 1000 + rep as u64);
+                let mut i = 0usize;
+                // (A) sampling rate ladder, cheap Occ; text long enough for a second sample and for walks > s
+                let mut rates = ladder(131_073);
+                rates.extend([2usize, 64]);
+                for (vi, &s) in rates.iter().enumerate() {
+                    let sdv = sd(vi as u64);
+                    let n = (2 * s + 11).max(3000);
+                    for text in [sp(Kind::Random, n, 4, Sent::Single, sdv), sp(Kind::Homo, n, 1, Sent::Single, sdv), sp(Kind::Random, n, 4, Sent::Random(n / 2000 + 1), sdv)] {
+                        i += 1;
+                        v.push(mk(text, s, 32, i, sdv, effort));
+                    }
+                    // s > n: only row 0 is sampled, walks run to the start of the sequence
+                    i += 1;
+                    v.push(mk(sp(Kind::Random, s.saturating_sub(7).max(1), 4, Sent::Single, sdv), s, 16, i, sdv, effort));
+                }
+                // (B) Occ rate ladder, small s; dense BWT runs (homopolymer, dinucleotide) and random
+                for (vi, &k) in ladder(131_073).iter().enumerate() {
+                    let sdv = sd(200 + vi as u64);
+                    let n = 2 * k + 11;
+                    for text in [sp(Kind::Random, n, 4, Sent::Single, sdv), sp(Kind::Homo, n, 1, Sent::Single, sdv), sp(Kind::Period(2), n, 4, Sent::Single, sdv), sp(Kind::Period(50), n, 4, Sent::Every(51), sdv)] {
+                        i += 1;
+                        v.push(mk(text, 8, k as u32, i, sdv, effort));
+                    }
+                    // k > n and k = 2n
+                    i += 1;
+                    v.push(mk(sp(Kind::Random, k - 9, 4, Sent::Single, sdv), 5, k as u32, i, sdv, effort));
+                    i += 1;
+                    v.push(mk(sp(Kind::Period(2), k / 2, 4, Sent::Single, sdv), 3, (k / 2 * 2) as u32, i, sdv, effort));
+                }
+                // (C) text length ladder
+                for (vi, &n) in ladder(1 << 21).iter().enumerate() {
+                    let sdv = sd(400 + vi as u64);
+                    let mut texts = vec![sp(Kind::Random, n, 4, Sent::Single, sdv), sp(Kind::Random, n, 4, Sent::Random(n / 300 + 1), sdv)];
+                    if n <= 131_073 || t == Tier::Thorough {
+                        texts.push(sp(Kind::Homo, n, 1, Sent::Single, sdv));
+                        texts.push(sp(Kind::Fib, n, 2, Sent::Single, sdv));
+                        texts.push(sp(Kind::Period(100), n, 4, Sent::Every(101), sdv));
+                    }
+                    for text in texts {
+                        i += 1;
+                        v.push(mk(text, [32usize, 7, 100][i % 3], [128u32, 3, 70][i % 3], i, sdv, effort));
+                    }
+                }
+                // (D) number of sentinel occurrences (size of the extra-row table)
+                for (vi, &m) in ladder(131_073).iter().enumerate() {
+                    let sdv = sd(600 + vi as u64);
+                    i += 1;
+                    v.push(mk(sp(Kind::Random, 3 * m, 4, Sent::Random(m - 1), sdv), 16, 64, i, sdv, effort));
+                    i += 1;
+                    v.push(mk(sp(Kind::Period(2), 3 * m, 4, Sent::Every(3), sdv), 4, 16, i, sdv, effort));
+                }
+                // (E) both rates large
+                for (j, &(s, k, n)) in [(65_537usize, 65_537u32, 200_003usize), (257, 70_000, 150_001), (70_000, 257, 150_001), (131_073, 4_097, 300_007), (4_097, 131_073, 300_007)].iter().enumerate() {
+                    let sdv = sd(800 + j as u64);
+                    for text in [sp(Kind::Random, n, 4, Sent::Single, sdv), sp(Kind::Homo, n, 1, Sent::Single, sdv)] {
+                        i += 1;
+                        v.push(mk(text, s, k, i, sdv, effort));
+                    }
+                }
+            }
+            v
+        }
+
+        pub fn sub() -> LadderSub<Case> {
+            LadderSub {
+                name: "C03/large-sampled",
+                cases,
+                weight,
+                check,
+                shards_quick: 16,
+                shards_thorough: 16,
+                must_reach: &[
+                    N_LABELS[0], N_LABELS[1], N_LABELS[2], N_LABELS[3], N_LABELS[4], N_LABELS[5], N_LABELS[6], N_LABELS[7], N_LABELS[8], N_LABELS[9], N_LABELS[10], N_LABELS[11],
+                    S_LABELS[0], S_LABELS[1], S_LABELS[2], S_LABELS[3], S_LABELS[4], S_LABELS[5], S_LABELS[6], S_LABELS[7], S_LABELS[8], S_LABELS[9],
+                    K_LABELS[0], K_LABELS[1], K_LABELS[2], K_LABELS[3], K_LABELS[4], K_LABELS[5], K_LABELS[6], K_LABELS[7], K_LABELS[8], K_LABELS[9],
+                    SENT_LABELS[0], SENT_LABELS[1], SENT_LABELS[2], SENT_LABELS[3], SENT_LABELS[4], SENT_LABELS[5], SENT_LABELS[6], SENT_LABELS[7], SENT_LABELS[8], SENT_LABELS[9],
+                    "LF walk > 255 steps", "LF walk > 65535 steps", "s>n", "k>n", "k>65536 with a second checkpoint", "s>65536 with a second sample",
+                    "multi-sentinel (extra rows)", "every row queried", "SUS through the sampled array", "borrowed", "owned", "Arc",
+                ],
+            }
+        }
+    }
+}
+
 pub fn property() -> Property {
     Property {
         id: "C03",
-        rule: "random byte texts = body + trailing sentinel ($, !, #, 0x00; body symbols strictly larger; interior sentinel occurrences inserted with probability 0/2/10/40 %), bodies uniform over 1-4 letters, runs, Fibonacci/Thue-Morse factors, periodic, X..X repeats, full byte alphabet, all-symbols permutations; body lengths <=19 / <=299 / <=2999 (thorough: <=20000). Oracle for suffix_array: permutation, sa[0]=n-1, sentinel positions first, and strictly increasing under direct suffix comparison in which each sentinel occurrence is a distinct symbol ranked as in sa[0..#sentinels]. Single-sentinel texts with n>=2: every LCP entry against the directly counted common prefix, -1 borders, get()==decompress(); shortest_unique_substrings against 1+max neighbour prefix (all n), pairwise scan (n<=200) and the literal one-occurrence definition (n<=60). Integer texts (rank-compressed random/structured bodies + unique trailing 0, element types u8/u16/u32/u64/usize): permutation + adjacent slice comparison (+ full sort for n<=64). Sampled array: get(i)==full[i] for all i with s in 1..=n+2, k in 1..=2n, alphabets with extra symbols, full array = naive suffix sort (and the library array when it differs). Exhaustive: every text over {$,a,b} of body length <=8 (thorough 10) + final $, all of the above with every s and k in {1,2,3,n,2n}. Non-trivial = n>=4 and a repeated symbol (sampled: n>=4 and s>1; int: n>=4 and a repeated value); distinct = distinct serialised case.",
+        rule: "random byte texts = body + trailing sentinel ($, !, #, 0x00; body symbols strictly larger; interior sentinel occurrences inserted with probability 0/2/10/40 %), bodies uniform over 1-4 letters, runs, Fibonacci/Thue-Morse factors, periodic, X..X repeats, full byte alphabet, all-symbols permutations; body lengths <=19 / <=299 / <=2999 (thorough: <=20000). Oracle for suffix_array: permutation, sa[0]=n-1, sentinel positions first, and strictly increasing under direct suffix comparison in which each sentinel occurrence is a distinct symbol ranked as in sa[0..#sentinels]. Single-sentinel texts with n>=2: every LCP entry against the directly counted common prefix, -1 borders, get()==decompress(); shortest_unique_substrings against 1+max neighbour prefix (all n), pairwise scan (n<=200) and the literal one-occurrence definition (n<=60). Integer texts (rank-compressed random/structured bodies + unique trailing 0, element types u8/u16/u32/u64/usize): permutation + adjacent slice comparison (+ full sort for n<=64). Sampled array: get(i)==full[i] for all i with s in 1..=n+2, k in 1..=2n, alphabets with extra symbols, full array = naive suffix sort (and the library array when it differs). Exhaustive: every text over {$,a,b} of body length <=8 (thorough 10) + final $, all of the above with every s and k in {1,2,3,n,2n}. Non-trivial = n>=4 and a repeated symbol (sampled: n>=4 and s>1; int: n>=4 and a repeated value); distinct = distinct serialised case. LARGE-SCALE (C03/large-sa, large-int, large-sampled; enumerated parameter cases {kind, n, sigma, sentinel layout, seed} expanded by a splitmix64 generator, so every ladder value is reached for every seed): text length, number of sentinel occurrences, alphabet+sentinel count (u8/u16/u32 text switch), number of LMS positions (u8/u16/u32 reduced text), longest repeat / LCP value (i8 small-int limit 127, 255, 65535), largest integer symbol and element type, SA sampling rate s, Occ rate k and LF-walk length on the ladder 255..257, 511..513, 1023..1025, 4095..4097, 8191..8193, 16383..16385, 32767..32769, 65535..65537, ~70000, 131071..131073, 2^19+-1, 2^20+-1 over random / homopolymer / periodic / ascending / descending / Fibonacci / Thue-Morse / XcX / identical-reads texts. Oracle there: permutation + sentinel block + strict order of adjacent suffixes via polynomial prefix hashes (common prefix in O(log) probes; every alarm is re-confirmed by direct comparison, so a hash collision can only cause a miss); LCP / SUS against those common prefixes; sampled get(i) against the full array for all rows or for a budgeted selection that always contains the rows with the longest LF walks, the rows around multiples of s and around every ladder value.",
         assumptions: &[
             "byte texts are non-empty and end in their smallest symbol; integer texts use every value of 0..=max and end in the only 0",
             "the alphabet handed to less/Occ for the sampled array contains every text symbol; a `$` sentinel may be left out when a larger symbol is present (Occ::new adds it)",
@@ -456,6 +1200,9 @@ pub fn property() -> Property {
                 watch: false,
             }),
             Box::new(ExhSub { name: "C03/exhaustive", enumerate: exh::enumerate, check: exh::check, must_reach: &["multi-sentinel", "recursion taken", "integer variants checked"] }),
+            Box::new(large::bytes::sub()),
+            Box::new(large::ints::sub()),
+            Box::new(large::sampled::sub()),
         ],
     }
 }
